@@ -433,4 +433,278 @@ theorem noEmptyOr_of_noEmptyOrExist (q : Query String) (h : noEmptyOrExist q = t
   | isIn n vs => rfl
   | exist ns => rfl
 
+/-! ### Every failure of the value-level parser carries one of the listed messages -/
+
+/-- "if it fails, the message is one of `parseErrorMessages`" -/
+def Classified {α : Type} (r : Except String α) : Prop := ∀ e, r = .error e → e ∈ parseErrorMessages
+
+theorem cmpOfKey_some {o : String} {op : CmpOp} (h : cmpOfKey o = some op) :
+    o = "$neq" ∨ o = "$gt" ∨ o = "$gte" ∨ o = "$lt" ∨ o = "$lte" ∨ o = "$like" := by
+  unfold cmpOfKey at h
+  repeat' split at h
+  all_goals first | (cases h; done) | simp_all
+
+theorem parseSingle_classified (o key : String) (v : J) : Classified (parseSingle o key v) := by
+  intro e h
+  unfold parseSingle at h
+  split at h
+  · rename_i op hop
+    split at h
+    · cases h
+    · cases h
+      rcases cmpOfKey_some hop with rfl | rfl | rfl | rfl | rfl | rfl <;> simp [parseErrorMessages]
+  · repeat' split at h
+    all_goals first | (cases h; done) | (cases h; simp [parseErrorMessages])
+
+theorem parseOperator_atom_classified {j : J} (hj : (∀ xs, j ≠ .arr xs) ∧ (∀ m, j ≠ .obj m)) (key : String) :
+    Classified (parseOperator key j) := by
+  intro e h
+  cases j with
+  | arr xs => exact absurd rfl (hj.1 xs)
+  | obj m => exact absurd rfl (hj.2 m)
+  | str s =>
+    simp only [parseOperator] at h
+    repeat' split at h
+    all_goals first | (cases h; done) | (cases h; simp [parseErrorMessages])
+  | null =>
+    simp only [parseOperator] at h
+    repeat' split at h
+    all_goals first | (cases h; done) | (cases h; simp [parseErrorMessages])
+  | bool b =>
+    simp only [parseOperator] at h
+    repeat' split at h
+    all_goals first | (cases h; done) | (cases h; simp [parseErrorMessages])
+  | num n =>
+    simp only [parseOperator] at h
+    repeat' split at h
+    all_goals first | (cases h; done) | (cases h; simp [parseErrorMessages])
+
+theorem parser_classified (j : J) : ∀ key, Classified (parseOperator key j) := by
+  refine J.rec
+    (motive_1 := fun j => ∀ key, Classified (parseOperator key j))
+    (motive_2 := fun xs => Classified (parseList xs))
+    (motive_3 := fun m => Classified (parseOps m))
+    (motive_4 := fun kv => ∀ key, Classified (parseOperator key kv.2))
+    ?_ ?_ ?_ ?_ ?_ ?_ ?_ ?_ ?_ ?_ ?_ j
+  · intro key; exact parseOperator_atom_classified ⟨fun _ h => J.noConfusion h, fun _ h => J.noConfusion h⟩ key
+  · intro b key; exact parseOperator_atom_classified ⟨fun _ h => J.noConfusion h, fun _ h => J.noConfusion h⟩ key
+  · intro n key; exact parseOperator_atom_classified ⟨fun _ h => J.noConfusion h, fun _ h => J.noConfusion h⟩ key
+  · intro s key; exact parseOperator_atom_classified ⟨fun _ h => J.noConfusion h, fun _ h => J.noConfusion h⟩ key
+  · -- arrays
+    intro xs ih key e h
+    simp only [parseOperator] at h
+    repeat' split at h
+    all_goals first
+      | (cases h; done)
+      | (cases h; simp [parseErrorMessages]; done)
+      | (cases h; apply ih; assumption)
+  · -- objects
+    intro m ih key e h
+    simp only [parseOperator] at h
+    repeat' split at h
+    all_goals first
+      | (cases h; done)
+      | (cases h; simp [parseErrorMessages]; done)
+      | (cases h; apply ih; assumption)
+      | (cases h; apply parseSingle_classified; assumption)
+  · intro e h; simp [parseList] at h
+  · intro x xs ihx ihxs e h
+    cases x with
+    | obj m =>
+      simp only [parseList] at h
+      repeat' split at h
+      all_goals first
+        | (cases h; done)
+        | (cases h; apply ihxs; assumption)
+        | (cases h
+           -- the head is an object: its own parse error, seen through the `$not` reading
+           rename_i _ he'
+           exact ihx "$not" e (by simp [parseOperator, he']))
+    | null => simp [parseList] at h; subst h; simp [parseErrorMessages]
+    | bool b => simp [parseList] at h; subst h; simp [parseErrorMessages]
+    | num n => simp [parseList] at h; subst h; simp [parseErrorMessages]
+    | str s => simp [parseList] at h; subst h; simp [parseErrorMessages]
+    | arr ys => simp [parseList] at h; subst h; simp [parseErrorMessages]
+  · intro e h; simp [parseOps] at h
+  · intro kv m ihkv ihm e h
+    obtain ⟨k, v⟩ := kv
+    simp only [parseOps] at h
+    repeat' split at h
+    all_goals first
+      | (cases h; done)
+      | (cases h; apply ihm; assumption)
+      | (cases h; apply ihkv k; assumption)
+  · intro k v ih; exact ih
+
+theorem parseOps_classified (m : List (String × J)) : Classified (parseOps m) := by
+  induction m with
+  | nil => intro e h; simp [parseOps] at h
+  | cons kv m ih =>
+    obtain ⟨k, v⟩ := kv
+    intro e h
+    simp only [parseOps] at h
+    repeat' split at h
+    all_goals first
+      | (cases h; done)
+      | (cases h; apply ih; assumption)
+      | (cases h; apply parser_classified v k; assumption)
+
+theorem parseMap_classified (m : List (String × J)) : Classified (parseMap m) := by
+  intro e h
+  simp only [parseMap] at h
+  split at h
+  · cases h; apply parseOps_classified m; assumption
+  · cases h
+
+theorem legacyObjs_error {xs : List J} {e : String} (h : legacyObjs xs = .error e) :
+    e = "Restriction is invalid" := by
+  induction xs with
+  | nil => simp [legacyObjs] at h
+  | cons x xs ih =>
+    cases x with
+    | obj m =>
+      simp only [legacyObjs] at h
+      split at h
+      · cases h; apply ih; assumption
+      · cases h
+    | null => simp [legacyObjs] at h; exact h.symm
+    | bool b => simp [legacyObjs] at h; exact h.symm
+    | num n => simp [legacyObjs] at h; exact h.symm
+    | str s => simp [legacyObjs] at h; exact h.symm
+    | arr ys => simp [legacyObjs] at h; exact h.symm
+
+theorem parseQuery_classified (j : J) : Classified (parseQuery j) := by
+  intro e h
+  cases j with
+  | obj m => exact parseMap_classified m e (by simpa [parseQuery] using h)
+  | arr xs =>
+    simp only [parseQuery] at h
+    split at h
+    · cases h
+      rename_i e' he'
+      rw [legacyObjs_error he']; simp [parseErrorMessages]
+    · exact parseMap_classified _ e h
+  | null => simp [parseQuery] at h; subst h; simp [parseErrorMessages]
+  | bool b => simp [parseQuery] at h; subst h; simp [parseErrorMessages]
+  | num n => simp [parseQuery] at h; subst h; simp [parseErrorMessages]
+  | str s => simp [parseQuery] at h; subst h; simp [parseErrorMessages]
+
+/-! ### The legacy array form -/
+
+theorem legacyObjs_objs (ms : List (List (String × J))) :
+    legacyObjs (ms.map .obj) = .ok ((legacyKept ms).map .obj) := by
+  induction ms with
+  | nil => rfl
+  | cons m ms ih =>
+    simp only [List.map_cons, legacyObjs, ih, legacyKept, List.filter_cons]
+    change Except.ok (if (dropNulls m).isEmpty = true then _ else J.obj (dropNulls m) :: _) = _
+    cases hm : (dropNulls m).isEmpty <;> simp
+
+theorem legacyObjs_nonobj {xs : List J} (h : ∃ x ∈ xs, x.isObj = false) :
+    legacyObjs xs = .error "Restriction is invalid" := by
+  induction xs with
+  | nil => obtain ⟨x, hx, _⟩ := h; cases hx
+  | cons y ys ih =>
+    cases y with
+    | obj m =>
+      obtain ⟨x, hx, hx'⟩ := h
+      have : ∃ x ∈ ys, x.isObj = false := by
+        rcases List.mem_cons.mp hx with rfl | hx
+        · simp [J.isObj] at hx'
+        · exact ⟨x, hx, hx'⟩
+      simp [legacyObjs, ih this]
+    | null => rfl
+    | bool b => rfl
+    | num n => rfl
+    | str s => rfl
+    | arr zs => rfl
+
+theorem legacyObjs_congr (pre : List J) {a b : List J} (h : legacyObjs a = legacyObjs b) :
+    legacyObjs (pre ++ a) = legacyObjs (pre ++ b) := by
+  induction pre with
+  | nil => simpa using h
+  | cons x pre ih =>
+    cases x <;> simp [legacyObjs, ih]
+
+theorem dropNulls_idem (m : List (String × J)) : dropNulls (dropNulls m) = dropNulls m := by
+  simp [dropNulls, List.filter_filter]
+
+theorem dropNulls_all_null {m : List (String × J)} (h : m.all (fun kv => kv.2.isNull) = true) :
+    dropNulls m = [] := by
+  simp only [dropNulls, List.filter_eq_nil_iff]
+  intro kv hkv
+  simp [List.all_eq_true.mp h kv hkv]
+
+theorem legacyObjs_cons_obj (m : List (String × J)) (post : List J) :
+    legacyObjs (.obj m :: post) =
+      match legacyObjs post with
+      | .error e => .error e
+      | .ok res => .ok (if (dropNulls m).isEmpty then res else .obj (dropNulls m) :: res) := rfl
+
+theorem legacyObjs_dropNulls (m : List (String × J)) (post : List J) :
+    legacyObjs (.obj m :: post) = legacyObjs (.obj (dropNulls m) :: post) := by
+  rw [legacyObjs_cons_obj, legacyObjs_cons_obj, dropNulls_idem]
+
+theorem legacyObjs_null_only {m : List (String × J)} (h : m.all (fun kv => kv.2.isNull) = true)
+    (post : List J) : legacyObjs (.obj m :: post) = legacyObjs post := by
+  rw [legacyObjs_cons_obj, dropNulls_all_null h]
+  cases legacyObjs post <;> rfl
+
+/-- `parse_list_operators` on objects: member by member -/
+theorem parseList_objs (ks : List (List (String × J))) (qs : List (Query String))
+    (h : ParsesTo ks qs) : parseList (ks.map .obj) = .ok qs := by
+  induction ks generalizing qs with
+  | nil => cases qs with
+    | nil => rfl
+    | cons q qs => exact absurd h (by simp [ParsesTo])
+  | cons m ks ih =>
+    cases qs with
+    | nil => exact absurd h (by simp [ParsesTo])
+    | cons q qs =>
+      obtain ⟨hm, hks⟩ := h
+      simp only [parseQuery, parseMap] at hm
+      split at hm
+      · cases hm
+      · rename_i ops hops
+        cases hm
+        simp [parseList, hops, ih qs hks]
+
+/-- … and the first member that does not parse decides the error -/
+theorem parseList_objs_error (pre : List (List (String × J))) (qs : List (Query String))
+    (m : List (String × J)) (post : List J) (e : String)
+    (h : ParsesTo pre qs) (hm : parseQuery (.obj m) = .error e) :
+    parseList (pre.map .obj ++ .obj m :: post) = .error e := by
+  induction pre generalizing qs with
+  | nil =>
+    simp only [parseQuery, parseMap] at hm
+    split at hm
+    · rename_i e' he'; cases hm; simp [parseList, he']
+    · cases hm
+  | cons m' ks ih =>
+    cases qs with
+    | nil => exact absurd h (by simp [ParsesTo])
+    | cons q qs =>
+      obtain ⟨hm', hks⟩ := h
+      simp only [parseQuery, parseMap] at hm'
+      split at hm'
+      · cases hm'
+      · rename_i ops hops
+        simp [parseList, hops, ih qs hks]
+
+theorem parseQuery_or_list (res : List J) (qs : List (Query String)) (h : parseList res = .ok qs)
+    (hne : res ≠ []) : parseQuery (.obj [("$or", .arr res)]) = .ok (.or qs) := by
+  cases res with
+  | nil => exact absurd rfl hne
+  | cons x xs => simp [parseQuery, parseMap, parseOps, parseOperator, h, collapse]
+
+theorem holdsAny_eq_any (like : Bytes → Bytes → Bool) (tags : List Tag) (qs : List (Query String)) :
+    holdsAny like tags false (mapNamesList splitName qs) = qs.any fun q => holds like tags (tagQuery q) := by
+  induction qs with
+  | nil => rfl
+  | cons q qs ih => simp [mapNamesList, holdsAny, ih, holds, tagQuery]
+
+theorem holds_or (like : Bytes → Bytes → Bool) (tags : List Tag) (qs : List (Query String)) :
+    holds like tags (tagQuery (.or qs)) = qs.any fun q => holds like tags (tagQuery q) := by
+  simp [holds, tagQuery, Query.mapNames, holdsP, holdsAny_eq_any]
+
 end Askar.Wql.Lemmas
